@@ -519,7 +519,167 @@ func (e *Engine) determinism(prop string) []*Oblig {
 	o3 := structOblig("idempotent-display/decode-display-cone", "deterministic",
 		"no function reachable from framing, decoding and display stores into a field of a Message a value that depends on the previous content of that field (repeated display recomputes the same values)",
 		[]string{prop}, selfdep)
-	return []*Oblig{o1, o2, o3}
+	o4 := structOblig("lazy-analysis-first/decode-display-cone", "deterministic",
+		"a display method that analyses its receiver lazily reads the fields the analysis may set only after the analysis (the first display of a message gives the same text as every later one)",
+		[]string{prop}, e.lazyAnalysisFirst(cone))
+	return []*Oblig{o1, o2, o3, o4}
+}
+
+// fieldsStoredBy: indices of the fields of named struct type t that f, or a repository function it
+// calls (to a small depth), stores into.
+func (e *Engine) fieldsStoredBy(f *ssa.Function, t *types.Named, depth int, seen map[*ssa.Function]bool, out map[int]bool) {
+	if f == nil || depth > 4 || seen[f] {
+		return
+	}
+	seen[f] = true
+	for _, b := range f.Blocks {
+		for _, ins := range b.Instrs {
+			switch x := ins.(type) {
+			case *ssa.Store:
+				if fa, ok := x.Addr.(*ssa.FieldAddr); ok {
+					if n, ok := derefType(fa.X.Type()).(*types.Named); ok && n == t {
+						out[fa.Field] = true
+					}
+				}
+			case *ssa.Call:
+				if c := x.Call.StaticCallee(); c != nil && e.inRepoStrict(c) {
+					e.fieldsStoredBy(c, t, depth+1, seen, out)
+				}
+			}
+		}
+	}
+}
+
+// lazyAnalysisFirst: in a String method that calls a function which stores into fields of the
+// receiver's type (lazy analysis), a read of such a field from which a call of the analysis can
+// still be reached sees the value from before the analysis - the text of the first display then
+// differs from the text of later ones.  The read that guards the call itself (if x.F == nil
+// { analyse(x) }) is the one exception.
+func (e *Engine) lazyAnalysisFirst(cone []*ssa.Function) []string {
+	var problems []string
+	for _, fn := range cone {
+		if fn.Name() != "String" || fn.Signature.Recv() == nil || len(fn.Blocks) == 0 {
+			continue
+		}
+		t, ok := derefType(fn.Signature.Recv().Type()).(*types.Named)
+		if !ok {
+			continue
+		}
+		if _, isStruct := t.Underlying().(*types.Struct); !isStruct {
+			continue
+		}
+		type site struct {
+			call *ssa.Call
+			w    map[int]bool
+		}
+		var sites []site
+		for _, b := range fn.Blocks {
+			for _, ins := range b.Instrs {
+				c, ok := ins.(*ssa.Call)
+				if !ok {
+					continue
+				}
+				callee := c.Call.StaticCallee()
+				if callee == nil || !e.inRepoStrict(callee) {
+					continue
+				}
+				w := map[int]bool{}
+				e.fieldsStoredBy(callee, t, 0, map[*ssa.Function]bool{}, w)
+				if len(w) > 0 {
+					sites = append(sites, site{c, w})
+				}
+			}
+		}
+		if len(sites) == 0 {
+			continue
+		}
+		index := func(ins ssa.Instruction) int {
+			for i, x := range ins.Block().Instrs {
+				if x == ins {
+					return i
+				}
+			}
+			return -1
+		}
+		reaches := func(from ssa.Instruction, to ssa.Instruction) bool {
+			if from.Block() == to.Block() && index(from) < index(to) {
+				return true
+			}
+			seen := map[*ssa.BasicBlock]bool{}
+			stack := append([]*ssa.BasicBlock(nil), from.Block().Succs...)
+			for len(stack) > 0 {
+				b := stack[len(stack)-1]
+				stack = stack[:len(stack)-1]
+				if seen[b] {
+					continue
+				}
+				seen[b] = true
+				if b == to.Block() {
+					return true
+				}
+				stack = append(stack, b.Succs...)
+			}
+			return false
+		}
+		guardOnly := func(load *ssa.UnOp, call *ssa.Call) bool {
+			refs := load.Referrers()
+			if refs == nil || len(*refs) == 0 {
+				return false
+			}
+			for _, r := range *refs {
+				if _, isDbg := r.(*ssa.DebugRef); isDbg {
+					continue
+				}
+				cmp, ok := r.(*ssa.BinOp)
+				if !ok || cmp.Referrers() == nil {
+					return false
+				}
+				for _, r2 := range *cmp.Referrers() {
+					if _, isDbg := r2.(*ssa.DebugRef); isDbg {
+						continue
+					}
+					iff, ok := r2.(*ssa.If)
+					if !ok {
+						return false
+					}
+					direct := false
+					for _, sc := range iff.Block().Succs {
+						if sc == call.Block() {
+							direct = true
+						}
+					}
+					if !direct {
+						return false
+					}
+				}
+			}
+			return true
+		}
+		st := t.Underlying().(*types.Struct)
+		for _, b := range fn.Blocks {
+			for _, ins := range b.Instrs {
+				ld, ok := ins.(*ssa.UnOp)
+				if !ok || ld.Op.String() != "*" {
+					continue
+				}
+				fa, ok := ld.X.(*ssa.FieldAddr)
+				if !ok {
+					continue
+				}
+				if n, ok := derefType(fa.X.Type()).(*types.Named); !ok || n != t {
+					continue
+				}
+				for _, sc := range sites {
+					if !sc.w[fa.Field] || !reaches(ld, sc.call) || guardOnly(ld, sc.call) {
+						continue
+					}
+					problems = append(problems, fmt.Sprintf("%s: %s.String reads %s.%s and can still call %s afterwards (%s), which may set that field: the first display differs from later ones",
+						e.pos(ld), t.Obj().Name(), t.Obj().Name(), st.Field(fa.Field).Name(), sc.call.Call.StaticCallee().Name(), e.pos(sc.call)))
+				}
+			}
+		}
+	}
+	return problems
 }
 
 // dependsOnFieldLoad: does v depend (through SSA data flow within the function) on a load of
